@@ -187,6 +187,33 @@ Proof.
   - intros h hd H U. rewrite app_length. specialize (B h hd H U). lia.
 Qed.
 
+(** an object born with contents is never a set: the tables are untouched *)
+Lemma micro_allocwith_sets w ar k r kd cs ws ar' hs out :
+  micro w ar k (MAllocWith r kd cs ws) = (ar', hs, out) -> sets_ok (handles w) ar ->
+  auid ar' = auid ar /\ hs = handles w /\ sets_ok (handles w) ar'.
+Proof.
+  intros E SO. destruct ar as [c uid sets]. cbn [actx auid asets] in *.
+  cbn [micro actx auid asets] in E.
+  match type of E with context [init_obj ?kk ?ss ?ww] => destruct (init_obj kk ss ww) as [o|] eqn:IO end.
+  2:{ inversion E; subst. split; [reflexivity|split; [reflexivity|exact SO]]. }
+  destruct SO as [S D AL B]. cbn [actx auid asets] in *.
+  assert (NK : okind o <> KSet). { destruct kd; cbn in IO; try discriminate; inversion IO; subst; cbn; discriminate. }
+  unfold link, halloc in E. cbn in E. inversion E; subst; clear E.
+  cbn [auid]. split; [reflexivity|split; [reflexivity|]].
+  set (i := length (heap c)).
+  assert (GO : forall y, y < i -> hget (heap c ++ [Some o]) y = get c y) by (intros y Hy; apply hget_app_old; auto).
+  assert (GN : hget (heap c ++ [Some o]) i = Some o) by apply hget_app_new.
+  constructor; cbn [actx auid asets]; unfold get; cbn [heap set_rg set_regs set_met set_lists set_heap].
+  - intros sid sl so SG G L KS. rewrite GO in G by (apply (D sid sl SG)). apply (S sid sl so); auto.
+  - intros sid sl SG. rewrite app_length. cbn [length]. specialize (D sid sl SG); lia.
+  - intros sid so G KS. destruct (Nat.lt_ge_cases sid i) as [LT|GE].
+    + rewrite GO in G by auto. apply (AL sid so G KS).
+    + destruct (Nat.eq_dec sid i) as [->|NE].
+      * rewrite GN in G. inversion G; subst. contradiction.
+      * rewrite hget_oob in G by (rewrite app_length; cbn; unfold i in *; lia). discriminate.
+  - intros h hd H U. rewrite app_length. specialize (B h hd H U). lia.
+Qed.
+
 (** updating one arena together with the handle table *)
 Lemma hinv_put_h w a ar ar' hs' :
   HInv w -> get_arena w a = Some ar -> auid ar' = auid ar ->
@@ -418,8 +445,12 @@ Proof.
            apply (hinv_put_h w a ar ar' (handles w) H GA U OTH); [|apply (hi_h_lt _ H)];
            destruct ar' as [c' u' s']; cbn [actx auid asets] in *; subst u' s';
            apply sets_ok_kw; [apply (hi_sets _ H a ar GA)|exact K]; fail).
-    destruct (micro_alloc_sets w ar k r k0 ns nw ar' hs out E (hi_sets _ H a ar GA)) as [U [-> S']].
-    apply (hinv_put_h w a ar ar' (handles w) H GA U OTH S'). apply (hi_h_lt _ H).
+    all: match type of E with
+         | micro _ _ _ (MAlloc ?r ?kd ?ns ?nw) = _ =>
+           destruct (micro_alloc_sets w ar k r kd ns nw ar' hs out E (hi_sets _ H a ar GA)) as [U [-> S']]
+         | micro _ _ _ (MAllocWith ?r ?kd ?cs ?ws) = _ =>
+           destruct (micro_allocwith_sets w ar k r kd cs ws ar' hs out E (hi_sets _ H a ar GA)) as [U [-> S']]
+         end; apply (hinv_put_h w a ar ar' (handles w) H GA U OTH S'); apply (hi_h_lt _ H).
 Qed.
 
 Lemma root_barrier_heap c : heap (root_barrier c) = heap c.
